@@ -180,7 +180,7 @@ PROPS["C16"]["trusted_base"] = PROPS["C16"]["trusted_base"] + TB_SCHED
 PROPS["C03"]["components"].append(Sched("tc", 1500, 60000, label="sched-tc-gate"))
 PROPS["C03"]["trusted_base"] = PROPS["C03"]["trusted_base"] + TB_SCHED
 
-PROPS["C17"]["components"].append(Sched("mgr", 2000, 100000, exhaustive_limit=3000))
+PROPS["C17"]["components"].append(Sched("mgr", 2000, 100000, exhaustive_limit=3000, conformance="tr-mgr"))
 PROPS["C17"]["rule"] += " mgr (schedules): 2-4 threads among CreateCircuit(same name) / CreateCircuit(other) / GetCircuit / AllCircuits / Var on one Manager, with and without a StatFactory, under the cooperative scheduler; quiescent monitor: exactly one winner, stable handle, AllCircuits = successful creations, stats binding."
 PROPS["C17"]["trusted_base"] = PROPS["C17"]["trusted_base"] + TB_SCHED
 
